@@ -15,6 +15,7 @@ import (
 	"github.com/cockroachdb/errors/domains"
 	"github.com/cockroachdb/errors/errorspb"
 	"github.com/cockroachdb/errors/extgrpc"
+	"github.com/cockroachdb/errors/join"
 	"github.com/cockroachdb/errors/exthttp"
 	gstatus "github.com/cockroachdb/errors/grpc/status"
 	"github.com/cockroachdb/logtags"
@@ -83,6 +84,7 @@ func init() {
 	reg("errorf", Leaf, 3, ix(1), ix(0, 2), true, 1)
 	reg("unimplf", Leaf, 4, ix(0, 1), ix(2, 3), true, 1)
 	reg("protoleaf", Leaf, 0, nil, nil, true, 1)
+	reg("emptynew", Leaf, 0, nil, nil, true, 0) // New(""): weight 0, only ever placed as the reference of markempty
 	reg("rterr", Leaf, 0, nil, nil, false, 1)
 	// foreign leaves
 	reg("goerr", Leaf, 1, ix(0), nil, false, 4)
@@ -140,6 +142,9 @@ func init() {
 	reg("linkerr", Wrap, 3, ix(1, 2), nil, false, 1)
 	reg("syscallerr", Wrap, 1, nil, nil, false, 1)
 	reg("operr", Wrap, 2, ix(1), nil, false, 1)
+	reg("operrsrc", Wrap, 2, ix(1), nil, false, 1)     // local address only (ReadFrom on an unconnected socket)
+	reg("operrboth", Wrap, 3, ix(1, 2), nil, false, 0) // local and remote address; weight 0: placed explicitly by the C01/C09/C13 probes only (known finding: the library prints "src -> addr", net prints "src->addr")
+	reg("operrnone", Wrap, 1, nil, nil, false, 1)      // no address at all
 	reg("nofmtwrap", Wrap, 1, ix(0), nil, false, 2)
 	reg("aswrap", Wrap, 1, ix(0), nil, false, 1)
 	reg("causewrap", Wrap, 1, ix(0), nil, false, 1)
@@ -166,6 +171,7 @@ func init() {
 	reg("newfe", Barrier, 1, nil, ix(0), true, 1)
 	// wrappers with a hidden error
 	reg("mark", WrapHidden, 0, nil, nil, true, 2)
+	reg("markempty", WrapHidden, 0, nil, nil, true, 1) // Mark with a reference whose text is empty
 	reg("secondary", WrapHidden, 0, nil, nil, true, 2)
 	reg("wrapfe", WrapHidden, 1, nil, ix(0), true, 1)
 	reg("combine", WrapHidden, 0, nil, nil, true, 1)
@@ -173,6 +179,7 @@ func init() {
 	reg("newfew", WrapHidden, 2, nil, ix(0, 1), true, 1) // the %w operand is NOT the first error argument
 	// multi-cause
 	reg("join", Multi, 0, nil, nil, true, 3)
+	reg("joinbare", Multi, 0, nil, nil, true, 1) // the sub-package's join.Join: no stack layer above the join node
 	reg("gojoin", Multi, 0, nil, nil, false, 2)
 	reg("goerrorfmulti", Multi, 1, ix(0), nil, false, 2)
 	reg("multinofmt", Multi, 1, ix(0), nil, false, 1)
@@ -260,6 +267,8 @@ func Build1(n *Node, m Built) error {
 	// ---- library leaves
 	case "new":
 		return errors.New(S[0])
+	case "emptynew":
+		return errors.New("")
 	case "newf":
 		return errors.Newf("%s "+esc(S[0])+" %s", S[1], errors.Safe(S[2]))
 	case "newf0":
@@ -347,7 +356,9 @@ func Build1(n *Node, m Built) error {
 	case "safedetails":
 		return errors.WithSafeDetails(kids[0], esc(S[0])+" %s %s", S[1], errors.Safe(S[2]))
 	case "telemetry":
-		return errors.WithTelemetry(kids[0], S...)
+		// a private copy: WithTelemetry keeps the variadic slice it is given, and the
+		// descriptor's strings are shared by every error built from it (and by the model)
+		return errors.WithTelemetry(kids[0], append([]string(nil), S...)...)
 	case "domain":
 		return errors.WithDomain(kids[0], errors.NamedDomain(S[0]))
 	case "domainnone":
@@ -398,6 +409,12 @@ func Build1(n *Node, m Built) error {
 		return os.NewSyscallError(S[0], kids[0])
 	case "operr":
 		return &net.OpError{Op: S[0], Net: "tcp", Addr: &net.UnixAddr{Name: S[1], Net: "unix"}, Err: kids[0]}
+	case "operrsrc":
+		return &net.OpError{Op: S[0], Net: "tcp", Source: &net.UnixAddr{Name: S[1], Net: "unix"}, Err: kids[0]}
+	case "operrboth":
+		return &net.OpError{Op: S[0], Net: "tcp", Source: &net.UnixAddr{Name: S[1], Net: "unix"}, Addr: &net.UnixAddr{Name: S[2], Net: "unix"}, Err: kids[0]}
+	case "operrnone":
+		return &net.OpError{Op: S[0], Net: "tcp", Err: kids[0]}
 	case "aswrap":
 		return &AsWrap{kids[0], S[0]}
 	case "nofmtwrap":
@@ -446,7 +463,7 @@ func Build1(n *Node, m Built) error {
 	case "newfe":
 		return errors.Newf(esc(S[0])+" %v", hid[0])
 	// ---- wrappers with a hidden error
-	case "mark":
+	case "mark", "markempty":
 		return errors.Mark(kids[0], hid[0])
 	case "secondary":
 		return errors.WithSecondaryError(kids[0], hid[0])
@@ -466,6 +483,8 @@ func Build1(n *Node, m Built) error {
 			kids[i] = errPoison
 		}
 		return j
+	case "joinbare":
+		return join.Join(append([]error(nil), kids...)...)
 	case "gojoin":
 		return goErr.Join(kids...)
 	case "goerrorfmulti":
